@@ -632,6 +632,9 @@ def gen_scn(rng, idx, prop, params):
         kw.update(period=p, input_value=field, multiplier=rng.choice([1.0, 1.5, 2.0, 2.5, 3.0]))
     elif kind == "Supertrend":
         kw.update(period=p, multiplier=rng.choice([1.0, 2.0, 3.0, 3.0, 4.5]))
+        if rng.random() < 0.3:
+            # Supertrend has an `input_value` argument that the definition does not use: the flip is decided by the CLOSE
+            kw["input_value"] = rng.choice(["high", "low", "open"])
     elif kind == "StandardDeviationThreshold":
         kw.update(period=p, input_value=field, multiplier=rng.choice([0.5, 1.0, 2.0, 2.0, 3.0]))
     elif kind == "Counter":
